@@ -448,6 +448,59 @@ theorem src_init_derived_reads :
     initDerivedReads .TO = [] ∧ initDerivedReads .EG = [] ∧ initDerivedReads .CR = [] ∧
     initDerivedReads .GS = ["objective_weight"] := by decide +kernel
 
+/-- GENERIC: a `fit` that reads no stale fitted state and unconditionally reassigns every attribute a prediction reads
+    leaves the same observable fitted state whatever the estimator's history was (any old state, any branch choices) —
+    and that state is computed from the data of this fit only -/
+theorem fit_overwrites_all_fitted_state (sh : FitShape) (h1 : sh.historyReads = [])
+    (h2 : ∀ a ∈ sh.predictReads, a ∈ sh.uncond) (ch1 ch2 : String → Bool) (d : Nat) (s1 s2 : FittedState) :
+    observe sh (fitOn sh ch1 d s1) = observe sh (fitOn sh ch2 d s2) ∧
+    ∀ v ∈ observe sh (fitOn sh ch1 d s1), v = some (d, true) := by
+  have key : ∀ (ch : String → Bool) (s : FittedState), ∀ a ∈ sh.predictReads, fitOn sh ch d s a = some (d, true) := by
+    intro ch s a ha
+    have hu : a ∈ sh.uncond := h2 a ha
+    simp [fitOn, hu, h1]
+  constructor
+  · unfold observe
+    apply List.map_congr_left
+    intro a ha; rw [key ch1 s1 a ha, key ch2 s2 a ha]
+  · intro v hv
+    unfold observe at hv
+    obtain ⟨a, ha, rfl⟩ := List.mem_map.mp hv
+    exact key ch1 s1 a ha
+
+/-- the hypotheses are needed: a conditional reset (the attribute is only rewritten on some paths) lets an earlier
+    fit's value through -/
+example : observe ⟨[], ["curve"], [], ["curve"]⟩ (fitOn ⟨[], ["curve"], [], ["curve"]⟩ (fun _ => false) 2 (fun _ => some (1, true)))
+    = [some (1, true)] := by decide
+
+/-- from the source: for ThresholdOptimizer, ExponentiatedGradient and GridSearch, `fit` reads no fitted attribute
+    before reassigning it AND every fitted attribute a prediction entry point reads is reassigned on every normally
+    returning path of `fit` … -/
+theorem src_fit_shape :
+    ∀ c ∈ [EstCls.TO, .EG, .GS], (shapeOf c).historyReads = [] ∧ predictReadsNotOverwritten c = [] ∧ predictReads c ≠ [] := by
+  decide +kernel
+
+/-- … hence every fit overwrites all fitted state a prediction can see (history freedom of the attribute state) -/
+theorem src_fit_overwrites_all_fitted_state (c : EstCls) (hc : c ∈ [EstCls.TO, .EG, .GS]) (ch1 ch2 : String → Bool)
+    (d : Nat) (s1 s2 : FittedState) :
+    observe (shapeOf c) (fitOn (shapeOf c) ch1 d s1) = observe (shapeOf c) (fitOn (shapeOf c) ch2 d s2) := by
+  obtain ⟨h1, h2, _⟩ := src_fit_shape c hc
+  refine (fit_overwrites_all_fitted_state (shapeOf c) h1 ?_ ch1 ch2 d s1 s2).1
+  intro a ha
+  have : (predictReadsNotOverwritten c).contains a = false := by rw [h2]; rfl
+  by_contra hn
+  have hmem : a ∈ predictReadsNotOverwritten c := by
+    unfold predictReadsNotOverwritten
+    rw [List.mem_filter]
+    refine ⟨ha, ?_⟩
+    have hnm : a ∉ fitDefinitelyAssigned c := hn
+    simp [hnm]
+  rw [h2] at hmem; cases hmem
+
+/-- CorrelationRemover: the same, up to the one static path of `_create_lookup` (1-d input) that is dead at run time -/
+theorem src_cr_fit_shape :
+    predictReadsNotOverwritten .CR = ["lookup_"] ∧ fitHistoryReads .CR = ["lookup_ in _split_X"] := by decide +kernel
+
 /-! ### the machines under the derived flags -/
 
 theorem src_gs_rules : gsRules = gsReentrant := by decide +kernel
